@@ -23,7 +23,10 @@ def value_classes():
 
     S = [("empty", ""), ("one", "a"), ("len31", "x" * 31), ("len32", "y" * 32), ("len255", "z" * 255), ("len256", "w" * 256),
          ("len65535", "q" * 65535), ("len65536", "r" * 65536), ("latin", "caf\u00e9"), ("astral", "a\U0001f600b"), ("escape", "ab\udcff\udc80"),
-         ("nul", "a\x00b"), ("csvish", 'a,"b";\tc'), ("newline", "l1\nl2\r\nl3"), ("space", " lead trail "), ("none", None)]
+         ("nul", "a\x00b"), ("csvish", 'a,"b";\tc'), ("newline", "l1\nl2\r\nl3"), ("space", " lead trail "),
+         # text that LOOKS like structure to a line- or bracket-counting reader
+         ("brace_open", "int main(void) {"), ("brace_close", "} // end of ["), ("jsonish", '{"_type": "recorddescriptor", "x": [1, 2'),
+         ("none", None)]
     INTS = [("zero", 0), ("one", 1), ("neg1", -1), ("p127", 127), ("p128", 128), ("n32", -32), ("n33", -33), ("p255", 255), ("p256", 256),
             ("p65535", 65535), ("p65536", 65536), ("p2_31m1", 2**31 - 1), ("p2_31", 2**31), ("p2_32", 2**32), ("p2_63m1", 2**63 - 1),
             ("p2_63", 2**63), ("p2_64m1", 2**64 - 1), ("p2_64", 2**64), ("n2_63", -(2**63)), ("n2_63m1", -(2**63) - 1), ("p2_200", 2**200),
